@@ -100,6 +100,7 @@ structure Fixes where
   d41 : Bool := false     -- `setattr(oldobj, name, getattr(newobj, name))` for a slot only set on the new instance
   d44 : Bool := false     -- the `__dict__` / `__weakref__` descriptors are left alone by `_livepatch__class`
   d45 : Bool := false     -- a cell whose content could not be patched in place is re-pointed to the new content
+  d52 : Bool := false     -- an *old* object that belongs to another module is never modified
   deriving Repr, Inhabited, DecidableEq
 
 structure Ctx where
@@ -513,6 +514,7 @@ def resolveKind (cx : Ctx) (rec : Rec) (vs : List Id) (old new : Id) (assumeModu
   let n ← getObj new
   let s ← getSt
   if cx.modname.isSome && (defModule s.heap new).isSome && defModule s.heap new != cx.modname then pure none
+  else if cx.fx.d52 && (cx.modname.isSome && (defModule s.heap old).isSome && defModule s.heap old != cx.modname) then pure none
   else if assumeModule then pure (some .module)
   else if sameType s.heap old new then pure (some o.kind)
   else match o, n with
